@@ -17,6 +17,7 @@ import (
 	"sort"
 	"strconv"
 	"strings"
+	"time"
 )
 
 // Stream is one correspondence stream.
@@ -87,6 +88,15 @@ func Main() {
 		in := bufio.NewScanner(os.Stdin)
 		in.Buffer(make([]byte, 1<<20), 1<<26)
 		var r Runner
+		hung, hangs := false, 0
+		// run budget (VERIF_RUN_BUDGET seconds, 0 = none): cases that start after it is used up are not run
+		// ("skipped-run-budget", not compared by bin/check): code that answers every op only after an internal
+		// time-out would otherwise keep a check busy for hours
+		started, overBudget := time.Now(), false
+		budget := 0
+		if v, err := strconv.Atoi(os.Getenv("VERIF_RUN_BUDGET")); err == nil && v > 0 {
+			budget = v
+		}
 		closeR := func() {
 			if c, ok := r.(Closer); ok && c != nil {
 				safeClose(c)
@@ -95,27 +105,73 @@ func Main() {
 		for in.Scan() {
 			line := in.Text()
 			if strings.HasPrefix(line, "#") {
-				closeR()
+				if !hung {
+					closeR()
+				}
+				hung = hangs >= 2 // after two stuck cases the rest of the input is skipped as well
+				if budget > 0 && time.Since(started) > time.Duration(budget)*time.Second {
+					overBudget = true
+				}
 				r = nil
 				out.WriteString(line)
 				out.WriteByte('\n')
 				continue
 			}
+			if overBudget {
+				out.WriteString("skipped-run-budget\n")
+				continue
+			}
+			if hung {
+				// the runner of this case is stuck in an earlier op: nothing more can be asked of it
+				out.WriteString("skipped-after-hang\n")
+				continue
+			}
 			if r == nil {
 				r = s.NewRunner()
 			}
-			out.WriteString(safeStep(r, line))
+			// watchdog: an op of the real code that does not return (deadlock, lost wake-up) becomes the
+			// output line "hang"; the rest of the case is skipped and the next case gets a fresh runner
+			resCh := make(chan string, 1)
+			go func(r Runner, line string) { resCh <- safeStep(r, line) }(r, line)
+			select {
+			case res := <-resCh:
+				out.WriteString(res)
+			case <-time.After(opTimeout()):
+				out.WriteString("hang")
+				hung = true
+				hangs++
+			}
 			out.WriteByte('\n')
 		}
-		closeR()
+		if !hung {
+			closeR()
+		}
 	default:
 		usage()
 	}
 }
 
+// opTimeout is the watchdog limit for one op (VERIF_OP_TIMEOUT seconds, default 40)
+func opTimeout() time.Duration {
+	if v, err := strconv.Atoi(os.Getenv("VERIF_OP_TIMEOUT")); err == nil && v > 0 {
+		return time.Duration(v) * time.Second
+	}
+	return 40 * time.Second
+}
+
+// safeClose closes a runner; a Close that panics or does not return (e.g. a Stop waiting for a goroutine
+// that is stuck) is abandoned after the watchdog limit
 func safeClose(c Closer) {
-	defer func() { _ = recover() }()
-	c.Close()
+	done := make(chan struct{})
+	go func() {
+		defer close(done)
+		defer func() { _ = recover() }()
+		c.Close()
+	}()
+	select {
+	case <-done:
+	case <-time.After(opTimeout()):
+	}
 }
 
 // safeStep converts a panic of the real code into an output line (properties such as "never
